@@ -86,14 +86,22 @@ func xorAll(b []byte, m byte) []byte {
 	return o
 }
 
-// confirm decides the confirmation clauses: genuine S1/S2 accepted (and equal to
-// the reference), every single-byte alteration and a set of semantically wrong
-// values refused, by either party, always on a fresh protocol object.
+// confirm decides the confirmation clauses. The contract read from the code and
+// doc comments of sm2/sm2_keyexchange.go: ConfirmResponder validates SB whenever it
+// is not empty, whatever the initiator's own genSignature flag is (the flag only
+// decides whether SA is returned); ConfirmInitiator validates SA whenever it is not
+// nil, whatever the responder's flag is (the flag only decides whether SB was
+// produced). So for each of the four (initiator flag, responder flag) combinations:
+// the genuine values (those the peer produced, and the reference's SB/SA where the
+// peer's flag is off) are accepted and equal the reference; every single-byte
+// alteration and a set of semantically wrong non-empty values are refused, by either
+// party, always on a fresh protocol object. An empty value means "no confirmation"
+// and is an observation only.
 func confirm(x *mon.Ctx) {
 	selfTest(x)
 	S := structured()
 	for i := 0; i < x.Scale(64, 800); i++ {
-		c := x.Begin("confirm session #%d (scalars and identities from the case PRNG)", i)
+		c := x.Begin("confirm session #%d, all four (initiator, responder) genSignature combinations (scalars and identities from the case PRNG)", i)
 		if c == nil {
 			continue
 		}
@@ -125,10 +133,6 @@ func confirmSession(x *mon.Ctx, c *mon.Case, s *spec) {
 	if err != nil || ref2.Infinity {
 		x.HarnessError("reference failed on case %d second session: %v", c.N, err)
 	}
-	// confirmation values computed with the identities' hashes swapped (ZB || ZA)
-	swSB := sm2kx.Confirm(0x02, ref.V, ref.ZB, ref.ZA, ref.EA, ref.EB)
-	swSA := sm2kx.Confirm(0x03, ref.V, ref.ZB, ref.ZA, ref.EA, ref.EB)
-
 	p := &party{s: s, ref: ref}
 	if !c.Call("sm2.NewPrivateKeyFromInt", func() {
 		if p.a, err = sm2.NewPrivateKeyFromInt(s.dA); err == nil {
@@ -140,42 +144,81 @@ func confirmSession(x *mon.Ctx, c *mon.Case, s *spec) {
 		}
 		return
 	}
+	for _, genA := range []bool{true, false} {
+		for _, genB := range []bool{true, false} {
+			confirmCombo(c, p, ref2, genA, genB)
+		}
+	}
+}
 
-	// --- genuine run: accepted, values equal to the reference
+// confirmCombo runs every confirmation check with an initiator built with
+// genSignature = genA and a responder built with genSignature = genB.
+func confirmCombo(c *mon.Case, p *party, ref2 *sm2kx.Result, genA, genB bool) {
+	ref := p.ref
+	combo := fmt.Sprintf("initiator=%v/responder=%v", genA, genB)
+	ev := func(name string) { c.Event(name+"/"+combo, 1) }
+	var err error
+	// confirmation values computed with the identities' hashes swapped (ZB || ZA)
+	swSB := sm2kx.Confirm(0x02, ref.V, ref.ZB, ref.ZA, ref.EA, ref.EB)
+	swSA := sm2kx.Confirm(0x03, ref.V, ref.ZB, ref.ZA, ref.EA, ref.EB)
+
+	// --- genuine run: the responder emits SB iff its flag is on
 	var rb *sm2.KeyExchange
 	var RB *ecdsa.PublicKey
 	var sB []byte
-	if !c.Call("responder B1-B9", func() { rb, RB, sB, err = p.freshResponder(true) }) {
+	if !c.Call("responder B1-B9 "+combo, func() { rb, RB, sB, err = p.freshResponder(genB) }) {
 		return
 	}
 	if err != nil {
-		c.Fail("reject", "RepondKeyExchange: %v", err)
+		c.Fail("reject", "[%s] RepondKeyExchange: %v", combo, err)
 		return
 	}
 	eqPoint(c, "RB", RB, ref.EB)
-	if !c.Eq("SB (S1)", sB, ref.SB) {
-		return
-	}
-	var ia *sm2.KeyExchange
-	var keyA, sA, keyB []byte
-	if !c.Call("initiator", func() {
-		if ia, err = p.freshInitiator(true); err == nil {
-			keyA, sA, err = ia.ConfirmResponder(copyPub(RB), append([]byte(nil), sB...))
+	if genB {
+		if !c.Eq("SB (S1) "+combo, sB, ref.SB) {
+			return
 		}
-	}) {
+	} else if len(sB) != 0 {
+		c.Fail("mismatch", "[%s] responder without confirmation returned SB=%x", combo, sB)
 		return
 	}
-	if err != nil {
-		c.Fail("reject", "genuine SB refused: %v", err)
-		return
+	// the initiator is given what the responder sent and, on another fresh object,
+	// the reference's SB (what a confirming responder would have sent): both genuine
+	sent := append([]byte(nil), sB...)
+	if len(sB) == 0 {
+		sent = nil
 	}
-	c.Event("genuine_accepted", 1)
-	c.Eq("initiator key", keyA, ref.K)
-	if !c.Eq("SA (S2)", sA, ref.SA) {
-		return
+	var sA []byte
+	for gi, g := range []forged{{"value sent by the responder", sent}, {"reference SB", ref.SB}} {
+		var keyA, s2 []byte
+		if !c.Call("ConfirmResponder(genuine: "+g.name+") "+combo, func() {
+			var ia *sm2.KeyExchange
+			if ia, err = p.freshInitiator(genA); err == nil {
+				keyA, s2, err = ia.ConfirmResponder(copyPub(RB), g.val)
+			}
+		}) {
+			return
+		}
+		if err != nil {
+			c.Fail("reject", "[%s] ConfirmResponder refused a genuine SB (%s, %x): %v", combo, g.name, g.val, err)
+			return
+		}
+		ev("genuine_SB_accepted")
+		c.Eq("initiator key "+combo, keyA, ref.K)
+		if genA {
+			if !c.Eq("SA (S2) "+combo, s2, ref.SA) {
+				return
+			}
+		} else if len(s2) != 0 {
+			c.Fail("mismatch", "[%s] initiator without confirmation returned SA=%x", combo, s2)
+			return
+		}
+		if gi == 0 {
+			sA = s2
+		}
 	}
 
-	// --- forged SB presented to fresh initiators
+	// --- forged non-empty SB presented to fresh initiators: refused whatever genA is
 	forSB := forgeries(c.R, ref.SB, []forged{
 		{"SA of the same session (tag 0x03 where 0x02 is expected)", ref.SA},
 		{"SB of a session with another rB", ref2.SB},
@@ -185,9 +228,9 @@ func confirmSession(x *mon.Ctx, c *mon.Case, s *spec) {
 	for _, f := range forSB {
 		var k, s2 []byte
 		var e error
-		if !c.Call("ConfirmResponder(forged SB: "+f.name+")", func() {
+		if !c.Call("ConfirmResponder(forged SB: "+f.name+") "+combo, func() {
 			var fi *sm2.KeyExchange
-			if fi, e = p.freshInitiator(true); e != nil {
+			if fi, e = p.freshInitiator(genA); e != nil {
 				return
 			}
 			k, s2, e = fi.ConfirmResponder(pubOf(ref.EB), f.val)
@@ -196,24 +239,23 @@ func confirmSession(x *mon.Ctx, c *mon.Case, s *spec) {
 		}
 		if e == nil {
 			c.Event("forged_accepted", 1)
-			c.Fail("accept", "ConfirmResponder accepted a wrong SB (%s): %x instead of %x; delivered key %x, SA %x", f.name, f.val, ref.SB, k, s2)
+			c.Fail("accept", "[%s] ConfirmResponder accepted a wrong, non-empty SB (%s): %x instead of %x; delivered key %x, SA %x", combo, f.name, f.val, ref.SB, k, s2)
 			return
 		}
-		c.Event("forged_SB_refused", 1)
+		ev("forged_SB_refused")
 	}
 
-	// --- forged SA presented to fresh responders
+	// --- forged non-nil, non-empty SA presented to fresh responders: refused whatever genB is
 	forSA := forgeries(c.R, ref.SA, []forged{
 		{"SB of the same session (tag 0x02 where 0x03 is expected)", ref.SB},
 		{"SA of a session with another rB", ref2.SA},
 		{"SA computed over ZB||ZA", swSA},
-		{"empty but not nil", []byte{}},
 	})
 	for _, f := range forSA {
 		var k []byte
 		var e error
-		if !c.Call("ConfirmInitiator(forged SA: "+f.name+")", func() {
-			fr, _, _, e2 := p.freshResponder(true)
+		if !c.Call("ConfirmInitiator(forged SA: "+f.name+") "+combo, func() {
+			fr, _, _, e2 := p.freshResponder(genB)
 			if e2 != nil {
 				e = e2
 				return
@@ -224,22 +266,56 @@ func confirmSession(x *mon.Ctx, c *mon.Case, s *spec) {
 		}
 		if e == nil {
 			c.Event("forged_accepted", 1)
-			c.Fail("accept", "ConfirmInitiator accepted a wrong SA (%s): %x instead of %x; delivered key %x", f.name, f.val, ref.SA, k)
+			c.Fail("accept", "[%s] ConfirmInitiator accepted a wrong, non-empty SA (%s): %x instead of %x; delivered key %x", combo, f.name, f.val, ref.SA, k)
 			return
 		}
-		c.Event("forged_SA_refused", 1)
+		ev("forged_SA_refused")
+	}
+	// an empty (present but zero-length) SA: "no confirmation" or a refusal, both admissible
+	{
+		var e error
+		if c.Call("ConfirmInitiator(empty SA) "+combo, func() {
+			fr, _, _, e2 := p.freshResponder(genB)
+			if e2 != nil {
+				e = e2
+				return
+			}
+			_, e = fr.ConfirmInitiator([]byte{})
+		}) {
+			c.Event(fmt.Sprintf("observed/empty_SA_refused=%v", e != nil), 1)
+		}
 	}
 
-	// --- the genuine SA is accepted by the responder that produced SB
-	if !c.Call("ConfirmInitiator", func() { keyB, err = rb.ConfirmInitiator(append([]byte(nil), sA...)) }) {
-		return
+	// --- genuine SA: what the initiator sent (nothing when its flag is off) goes to the
+	// responder that produced SB; the reference's SA goes to a fresh responder
+	var sAw []byte
+	if len(sA) != 0 {
+		sAw = append([]byte(nil), sA...)
 	}
-	if err != nil {
-		c.Fail("reject", "genuine SA refused: %v", err)
-		return
+	for _, g := range []struct {
+		name  string
+		val   []byte
+		fresh bool
+	}{{"value sent by the initiator", sAw, false}, {"reference SA", ref.SA, true}} {
+		var keyB []byte
+		if !c.Call("ConfirmInitiator(genuine: "+g.name+") "+combo, func() {
+			r := rb
+			if g.fresh {
+				if r, _, _, err = p.freshResponder(genB); err != nil {
+					return
+				}
+			}
+			keyB, err = r.ConfirmInitiator(g.val)
+		}) {
+			return
+		}
+		if err != nil {
+			c.Fail("reject", "[%s] ConfirmInitiator refused a genuine SA (%s, %x): %v", combo, g.name, g.val, err)
+			return
+		}
+		ev("genuine_SA_accepted")
+		c.Eq("responder key "+combo, keyB, ref.K)
 	}
-	c.Event("genuine_accepted", 1)
-	c.Eq("responder key", keyB, ref.K)
 
 	// --- a genuine confirmation bound to the wrong ephemeral point: RB of the other
 	// session with the SB of this one, and the reverse
@@ -249,9 +325,9 @@ func confirmSession(x *mon.Ctx, c *mon.Case, s *spec) {
 		sb   []byte
 	}{{"RB of another run with this run's SB", ref2.EB, ref.SB}, {"this run's RB with another run's SB", ref.EB, ref2.SB}} {
 		var e error
-		if !c.Call("ConfirmResponder(mismatched "+m.name+")", func() {
+		if !c.Call("ConfirmResponder(mismatched "+m.name+") "+combo, func() {
 			var fi *sm2.KeyExchange
-			if fi, e = p.freshInitiator(true); e != nil {
+			if fi, e = p.freshInitiator(genA); e != nil {
 				return
 			}
 			_, _, e = fi.ConfirmResponder(pubOf(m.pt), m.sb)
@@ -260,10 +336,10 @@ func confirmSession(x *mon.Ctx, c *mon.Case, s *spec) {
 		}
 		if e == nil {
 			c.Event("forged_accepted", 1)
-			c.Fail("accept", "ConfirmResponder accepted %s", m.name)
+			c.Fail("accept", "[%s] ConfirmResponder accepted %s", combo, m.name)
 			return
 		}
-		c.Event("mismatched_pair_refused", 1)
+		ev("mismatched_pair_refused")
 	}
 }
 
